@@ -57,6 +57,11 @@ Next ==
             /\ snaps' = FunSet(snaps, ev.sid, sms[ev.sm])
             /\ bad' = IF StateOf(ev.st) = sms[ev.sm] THEN bad ELSE Flag(ev, {"save-changed-state"})
             /\ UNCHANGED <<sms, cfgs>>
+       \* a snapshot taken while a batch was being applied: the driver places the event behind the Apply event
+       \* of the index the snapshot is labelled with; what it holds must be the state at that index
+       [] ev.op = "SaveAt" ->
+            /\ snaps' = FunSet(snaps, ev.sid, sms[ev.sm])
+            /\ UNCHANGED <<sms, cfgs, bad>>
        [] ev.op = "Recover" ->
             LET want == snaps[ev.sid] got == StateOf(ev.st) IN
             /\ sms' = [sms EXCEPT ![ev.sm] = got]
